@@ -427,8 +427,14 @@ func (m *Manager) FlushMemTables() error {
 	// Track operation
 	m.stats.TrackOperation(stats.OpFlush)
 
+	// Writers append to the flush list while holding m.mu (scheduleFlush), not
+	// flushMu: read it under m.mu and work on a snapshot
+	m.mu.RLock()
+	toFlush := append([]*memtable.MemTable(nil), m.immutableMTs...)
+	m.mu.RUnlock()
+
 	// If no immutable MemTables, flush the active one if needed
-	if len(m.immutableMTs) == 0 {
+	if len(toFlush) == 0 {
 		tables := m.memTablePool.GetMemTables()
 		if len(tables) > 0 && tables[0].ApproximateSize() > 0 {
 			// In testing, we might want to force flush the active table too
@@ -456,15 +462,18 @@ func (m *Manager) FlushMemTables() error {
 	}
 
 	// Flush each immutable MemTable
-	for i, imMem := range m.immutableMTs {
+	for i, imMem := range toFlush {
 		if err := m.flushMemTable(imMem); err != nil {
 			m.stats.TrackError("memtable_flush_error")
 			return fmt.Errorf("failed to flush MemTable %d: %w", i, err)
 		}
 	}
 
-	// Clear the immutable list - the MemTablePool manages reuse
-	m.immutableMTs = m.immutableMTs[:0]
+	// Remove the flushed tables from the list - the MemTablePool manages
+	// reuse. Tables queued while this flush was running stay queued.
+	m.mu.Lock()
+	m.immutableMTs = m.immutableMTs[len(toFlush):]
+	m.mu.Unlock()
 
 	// Track flush count
 	m.stats.TrackFlush()
